@@ -614,6 +614,8 @@ def explore(ctx, cases):
             ctx.sample({'doc': case['doc'], 'active': case['active'], 'ops': ops,
                         'labels_after_each_op': keys,
                         'observations': [o if o[0] != 'val' else ['val', o[1].get('command')] for o in obs]})
+        if case.get('stream') == 'interpreter':
+            continue            # predicate only (see interpreter_cases)
         terms.append(case_term(raw0, ops, obs, keys, base))
         kept.append((case, obs, keys))
     header = HEADER + '\nDefinition DFLT : jv := %s.\nDefinition BASE : jv := %s.' % (cjv(dflt), cjv(base))
@@ -753,6 +755,22 @@ def random_cases(rng, n, stream):
     return out
 
 
+def interpreter_cases(rng, n):
+    """components run through an interpreter: their resolved configuration gets a final fix-up (arguments are never
+    expanded) that the Coq model does not interpret, so these histories are checked against the from-scratch
+    answer only (the property predicate), not against the model"""
+    out = []
+    for _ in range(n):
+        doc, plats, ids = gen_doc(rng, 'prefix')
+        for c in doc['components']:
+            if rng.random() < 0.7:
+                c.setdefault('command', {})['interpreter'] = rng.choice(['bash', 'javascript'])
+        nops = rng.randrange(4, 20)
+        out.append({'doc': doc, 'active': rng.choice(plats), 'ops': gen_ops(rng, plats, ids, nops, 'prefix'),
+                    'stream': 'interpreter'})
+    return out
+
+
 def run(ctx):
     ctx.rule = ('histories of 1-40 operations (15 kinds: 13 mutators, query, in-place mutation of the returned '
                 'configuration; ~40% queries at random positions) on a live FlowIRConcrete over documents with 3 '
@@ -774,6 +792,7 @@ def run(ctx):
     cases += random_cases(rng, 420 if quick else 2500, 'prefix')
     cases += random_cases(rng, 200 if quick else 1200, 'meta')
     cases += random_cases(rng, 25 if quick else 100, 'colon')
+    cases += interpreter_cases(rng, 120 if quick else 600)
     explore(ctx, cases)
     ctx.count('cases', len(cases))
     matcher_check(ctx, 1200 if quick else 6000)
